@@ -18,7 +18,7 @@ TS = {"ImplLE": "1.2.840.10008.1.2", "ExplLE": "1.2.840.10008.1.2.1", "ExplBE": 
 CT, MR = "1.2.840.10008.5.1.4.1.1.2", "1.2.840.10008.5.1.4.1.1.4"
 UPS = {"UPSPush": "1.2.840.10008.5.1.4.34.6.1", "UPSPull": "1.2.840.10008.5.1.4.34.6.3", "UPSWatch": "1.2.840.10008.5.1.4.34.6.2"}
 # the abstract syntaxes "A" / "B" of the specification per kind of operation
-AB = {"store": {"A": CT, "B": MR}, "find": {"A": "1.2.840.10008.5.1.4.1.2.1.1", "B": "1.2.840.10008.5.1.4.1.2.2.1"},
+AB = {"store": {"A": CT, "B": MR}, "store_path": {"A": CT, "B": MR}, "find": {"A": "1.2.840.10008.5.1.4.1.2.1.1", "B": "1.2.840.10008.5.1.4.1.2.2.1"},
       "echo": {"A": "1.2.840.10008.1.1", "B": CT}, "event_report": {"A": "1.2.840.10008.5.1.1.16", "B": CT},
       "ups_create": {"A": CT, "B": MR}, "nget": {"A": CT, "B": "1.2.840.10008.5.1.1.16"}}
 
@@ -56,19 +56,40 @@ def same(a, b):
         return False
 
 
+VRS = {b"AE", b"AS", b"AT", b"CS", b"DA", b"DS", b"DT", b"FL", b"FD", b"IS", b"LO", b"LT", b"OB", b"OD", b"OF", b"OL", b"OV", b"OW", b"PN", b"SH", b"SL", b"SQ", b"SS",
+       b"ST", b"SV", b"TM", b"UC", b"UI", b"UL", b"UN", b"UR", b"US", b"UT", b"UV"}
+
+
 def encoding_of(raw: bytes, original):
-    """The transfer syntaxes under which the captured bytes decode to the original data set."""
-    out = []
-    for name in ("ImplLE", "ExplLE", "ExplBE", "Deflated"):
-        try:
-            with warnings.catch_warnings():
-                warnings.simplefilter("ignore")
-                d = decode(BytesIO(raw), name == "ImplLE", name != "ExplBE", name == "Deflated")
-            if d is not None and same(d, original):
-                out.append(name)
-        except Exception:  # noqa: BLE001
-            pass
-    return out
+    """The transfer syntax the captured bytes are really encoded in, read off the bytes themselves (pydicom's reader
+    corrects a wrong implicit/explicit assumption silently, so decoding alone cannot tell): deflated if the stream
+    inflates, byte order from the first tag's group number, explicit VR if two VR letters follow the first tag.  The
+    result is confirmed by decoding under it and comparing with the original data set."""
+    import zlib
+    name, body = None, raw
+    try:
+        body = zlib.decompress(raw, -zlib.MAX_WBITS)
+        name = "Deflated"
+    except zlib.error:
+        body = raw
+    if len(body) < 8:
+        return []
+    little = body[0] != 0 or body[1] == 0 and body[0] == 0 and False
+    little = not (body[0] == 0 and body[1] != 0)           # groups used here are 0x0008..0x0020: low byte first when little endian
+    explicit = body[4:6] in VRS
+    if name is None:
+        name = ("ExplLE" if explicit else "ImplLE") if little else ("ExplBE" if explicit else "ImplBE")
+    elif not (little and explicit):
+        name = "Deflated-but-not-explicit-LE"
+    try:
+        with warnings.catch_warnings():
+            warnings.simplefilter("ignore")
+            d = decode(BytesIO(raw), name == "ImplLE", name != "ExplBE", name == "Deflated")
+        if d is None or not same(d, original):
+            return [name + "?"]
+    except Exception:  # noqa: BLE001
+        return [name + "?"]
+    return [name]
 
 
 def run_case(case):
@@ -84,6 +105,29 @@ def run_case(case):
             if kind == "store":
                 original = stored_dataset(op["ds"])
                 a.send_c_store(original)
+            elif kind == "store_path":
+                import os
+                import tempfile
+                from pynetdicom import _config
+                original = stored_dataset(op["ds"])
+                if op.get("prev") == "same":
+                    try:
+                        a.send_c_store(stored_dataset(op["ds"]))      # an earlier send on the same association
+                    except (ValueError, AttributeError, RuntimeError):
+                        pass
+                    del rig.tap.log[:]
+                    a.is_established, a.is_aborted = True, False
+                d = tempfile.mkdtemp(prefix="c18_")
+                path = os.path.join(d, "x.dcm")
+                original.save_as(path)
+                old_cfg = _config.STORE_SEND_CHUNKED_DATASET
+                _config.STORE_SEND_CHUNKED_DATASET = True
+                try:
+                    a.send_c_store(path)
+                finally:
+                    _config.STORE_SEND_CHUNKED_DATASET = old_cfg
+                    import shutil
+                    shutil.rmtree(d, ignore_errors=True)
             elif kind == "find":
                 original = content()
                 list(a.send_c_find(original, ab_uid(kind, op["sop"])))
